@@ -13,7 +13,7 @@
  * struct osm_tape, which the unit fills from IN() scalars: the model itself is deterministic plain C.
  *
  * What the model lets the environment do (every choice is a tape entry, i.e. universally quantified by CBMC):
- *   posix_spawn[p]   k-th call fails with any non-zero errno (no child, *pid untouched) or creates a live child
+ *   posix_spawn[p]   fails with any non-zero errno (no child, *pid untouched) or creates a live child
  *   wait             reports ANY live child of the table (any termination order) with ANY termination status word
  *                    (exit 0..255, killed by signal 1..126, with or without core flag), each child exactly once;
  *                    may also report an unrelated pid (a child inherited from the invoking program); fails with
@@ -22,6 +22,12 @@
  *   pipe, fcntl, posix_spawn_file_actions_init/adddup2, mkstemp   fail with any errno when the tape says so
  *   kill, close, unlink   ghost bookkeeping (who was signalled, which descriptors are open, what was removed)
  *   exit             records the status, runs the unit's exit-time clauses osm_at_exit(), ends the path
+ *
+ * Bookkeeping is organised by "spawn attempt": the a-th attempt starts with posix_spawn_file_actions_init (or with
+ * a posix_spawn call that passes no file actions) and owns tape entries [a], child slot a, pid pidbase+a and the
+ * descriptor numbers OSM_FD0+2a / +2a+1 for its pipe.  Descriptor numbers are never reused, so a double close or a
+ * use after close cannot alias a newer descriptor.  Process and descriptor sets are bit masks (bit a = attempt a):
+ * no table is ever indexed by a value that is symbolic during symbolic execution.
  */
 #ifndef OS_MODEL_H
 #define OS_MODEL_H
@@ -29,70 +35,73 @@
 #include <sys/types.h>
 #include <spawn.h>
 
-#define OSM_MAXCHILD 6     /* children per harness run */
+#ifndef OSM_MAXCHILD
+#define OSM_MAXCHILD 6     /* spawn attempts (and pretended children) per harness run; <= 8 */
+#endif
+#ifndef OSM_MAXWAIT
 #define OSM_MAXWAIT  8     /* wait()/waitpid() calls per harness run */
-#define OSM_MAXFD    8    /* descriptors handed out by pipe/mkstemp: numbers OSM_FD0 .. OSM_FD0+OSM_MAXFD-1 */
-#define OSM_FD0      3
-#define OSM_MAXTMP   4
+#endif
+#define OSM_MAXTMP   4     /* mkstemp files (incl. pretended earlier ones) */
 #define OSM_MAXUNLINK 6
+#ifndef OSM_MAXARGV
 #define OSM_MAXARGV  32
-
-enum { OSM_FD_FREE, OSM_FD_PIPE_R, OSM_FD_PIPE_W, OSM_FD_FILE };
+#endif
+#define OSM_FD0      3
+#define OSM_FD_TMP0  (OSM_FD0 + 2 * OSM_MAXCHILD)          /* descriptors returned by mkstemp */
+#define OSM_NFD      (2 * OSM_MAXCHILD + OSM_MAXTMP)       /* descriptor numbers OSM_FD0 .. OSM_FD0+OSM_NFD-1; <= 32 */
 
 struct osm_child {
-	pid_t pid;
 	pid_t *pidp;          /* where posix_spawn stored the pid: identifies the stage */
 	char **argv;          /* argument vector the child was started with */
 	int argc;             /* number of arguments before the terminating NULL */
 	const char *file;
 	int in_fd, out_fd;    /* descriptor dup2'ed onto 0 / 1 by the file actions, or -1 (inherits the driver's) */
-	int in_pipe, out_pipe;/* pipe id behind in_fd/out_fd, or -1 */
-	int leaked;           /* number of pipe descriptors the child inherits besides stdin/stdout (not close-on-exec) */
-	int reaped;           /* 0 while the child is live (running or zombie), 1 once wait reported it */
+	int in_pipe, out_pipe;/* pipe id whose READ end is the child's stdin / whose WRITE end is its stdout (-1: none) */
+	int leaked;           /* descriptors the child inherits under their own number (open, not close-on-exec) */
 	int status;           /* status word wait reported */
-	int nterm;            /* SIGTERMs received while live */
-};
-
-struct osm_fd {
-	int kind;
-	int cloexec;
-	int pipe;             /* pipe id (pipe descriptors) */
 };
 
 /* the environment's choices; written by the harness only */
 struct osm_tape {
-	pid_t pidbase;                       /* children get pidbase, pidbase+1, ... */
-	int spawn_err[OSM_MAXCHILD];         /* k-th posix_spawn[p]: 0 = child created, otherwise the errno returned */
-	unsigned char wait_pick[OSM_MAXWAIT];    /* k-th wait(): which live child (index among the live ones, modulo) */
-	unsigned char wait_unknown[OSM_MAXWAIT]; /* k-th wait(): report an unrelated pid instead (only while one is pending) */
+	pid_t pidbase;                       /* child of attempt a gets pid pidbase + a */
+	int fa_init_err[OSM_MAXCHILD];       /* attempt a: posix_spawn_file_actions_init: 0 or errno */
+	int pipe_err[OSM_MAXCHILD];          /* attempt a: pipe(): 0 or errno */
+	int fcntl_err[OSM_MAXCHILD][2];      /* attempt a: first / second fcntl(): 0 or errno */
+	int fa_dup2_in_err[OSM_MAXCHILD];    /* attempt a: adddup2(.., fd, 0): 0 or errno */
+	int fa_dup2_out_err[OSM_MAXCHILD];   /* attempt a: adddup2(.., fd, 1): 0 or errno */
+	int spawn_err[OSM_MAXCHILD];         /* attempt a: posix_spawn[p]: 0 = child created, otherwise the errno returned */
+	unsigned char wait_pick[OSM_MAXWAIT];    /* k-th wait(): the live child to report (attempt number; any other value: the oldest) */
+	unsigned char wait_unknown[OSM_MAXWAIT]; /* k-th wait(): report an unrelated pid instead (while one is pending) */
 	int wait_status[OSM_MAXWAIT];        /* status word of the k-th wait()/waitpid() */
 	int nunknown;                        /* unrelated (inherited) children that wait() may report */
-	int pipe_err[OSM_MAXCHILD];          /* k-th pipe(): 0 or errno */
-	int fcntl_err[2 * OSM_MAXCHILD];     /* k-th fcntl(): 0 or errno */
-	int fa_init_err[OSM_MAXCHILD];       /* k-th posix_spawn_file_actions_init(): 0 or errno */
-	int fa_dup2_in_err[OSM_MAXCHILD];    /* adddup2(.., fd, 0) on the k-th file-actions object: 0 or errno */
-	int fa_dup2_out_err[OSM_MAXCHILD];   /* adddup2(.., fd, 1) on the k-th file-actions object: 0 or errno */
 	int mkstemp_err;                     /* mkstemp(): 0 or errno */
 };
 
 /* ghost state of the model; written by the model only */
 struct osm_state {
-	int nspawn, nwait, npipe, nfcntl, nfainit, nfadup2;  /* calls so far (tape positions) */
-	int nchild;
+	int nattempt;         /* spawn attempts begun */
+	int cur;              /* attempt in progress */
+	int nfcntl_cur;       /* fcntl calls of the attempt in progress */
+	int nspawn;           /* posix_spawn[p] calls */
+	int nwait;            /* wait/waitpid calls */
+	unsigned spawned;     /* bit a: attempt a created a child */
+	unsigned reaped;      /* bit a: that child was reported by wait */
+	unsigned termed;      /* bit a: that child received SIGTERM while live */
+	unsigned term_due;    /* children that were live when the FIRST failure became known to the driver */
 	struct osm_child child[OSM_MAXCHILD];
 	int unknown_left;
-	int nfail;            /* spawn failures + children reaped with a status other than "exited 0" */
-	int nspawnfail;
-	unsigned term_due;    /* children (bit i = child[i]) that were live when the FIRST failure became known to the driver */
+	int nfail;            /* failures to start a stage (posix_spawn, pipe, fcntl, file actions) + children reaped with a
+	                         status other than "exited 0" */
+	int nspawnfail;       /* posix_spawn failures among them */
 	int badkill;          /* kill() to something that is not a live child, or with a signal other than SIGTERM */
 	int nkill;
 	int badclose;         /* close() of a descriptor that is not open */
-	struct osm_fd fd[OSM_MAXFD];
-	int nopen;            /* descriptors currently open (of those the model handed out) */
+	unsigned fd_open;     /* bit i: descriptor OSM_FD0 + i is open in the driver */
+	unsigned fd_cloexec;  /* bit i: ... and close-on-exec */
 	int fa_live, fa_in, fa_out, fa_destroyed, fa_bad;   /* the (single) file-actions object in use */
 	int ntmp;             /* files created by mkstemp */
 	char *tmp[OSM_MAXTMP];
-	int tmp_unlinked[OSM_MAXTMP];
+	unsigned tmp_unlinked;
 	int nunlink;
 	const char *unlinked[OSM_MAXUNLINK];
 	int exited, exit_status;
@@ -101,15 +110,17 @@ struct osm_state {
 extern struct osm_tape osm_tape;
 extern struct osm_state osm;
 
-void osm_reset(void);                    /* harness: call first */
+void osm_reset(void);                    /* harness: call first (after filling the tape) */
 int osm_status_valid(int status);        /* status word is one that wait() can report for a terminated child */
 int osm_status_ok(int status);           /* "exited with 0" */
-int osm_nlive(void);                     /* children not yet reaped */
-int osm_was_unlinked(const char *path);  /* unlink(path) was called (pointer identity) */
+unsigned osm_livemask(void);             /* children not yet reaped */
+int osm_nlive(void);
+int osm_nchild(void);                    /* children created */
 int osm_term_missing(void);              /* children of term_due that never received SIGTERM */
 int osm_write_ends_open(void);           /* pipe write ends still open in the driver */
+int osm_nopen(void);                     /* descriptors open in the driver */
+int osm_was_unlinked(const char *path);  /* unlink(path) was called (pointer identity) */
 int osm_tmp_left(void);                  /* mkstemp files not unlinked */
-struct osm_child *osm_child_of(pid_t *pidp);  /* the live-or-dead child whose pid was stored at pidp most recently */
 pid_t osm_pretend_child(pid_t *pidp);    /* harness: register a live child as if spawned earlier */
 char *osm_pretend_tmp(char *path);       /* harness: register a temporary created by an earlier mkstemp */
 
@@ -129,6 +140,7 @@ int osm_mkstemp(char *);
 int osm_close(int);
 int osm_pipe(int [2]);
 int osm_fcntl3(int, int, int);
+int osm_stage_start(pid_t *pidp, int *fd, int last);
 void osm_exit(int);
 void osm_fatal(void);
 void osm_warn(void);
